@@ -71,13 +71,35 @@ def run(eng, R):
         msrc = _txt(mi.node)
         ok = "cost_function=MultiCostFunction.cost_sum" in msrc and "arg_names=cost_function_names" in msrc and "add_determinant_cost=False" in msrc
         R.ob("P-sum", "MultiCostFunction.__init__", ok, (mi.file, mi.lineno), "MultiCostFunction must wrap cost_sum over the given names and must not add a determinant term of its own")
-        ok = common.like_any(src, ["self._nexus.add_function(lambda *log_dets: np.sum(log_dets), 'total_cov_mat_log_determinant', _n, existing_behavior='replace')", "_n = []",
-                                   "if _f._nexus.get('total_cov_mat_log_determinant') is not None:", "_n.append('total_cov_mat_log_determinant%s' % _i)"])
+        # the names summed: per path through the member loop, 'total_cov_mat_log_determinant<i>' is appended exactly when the member has such a node
+        ok = False
+        s1 = common.Src(str(src))
+        if s1.like("self._nexus.add_function(lambda *log_dets: np.sum(log_dets), 'total_cov_mat_log_determinant', _n, existing_behavior='replace')") and s1.like("_n = []"):
+            names = s1._binding.get("_n")
+            HAS = "._nexus.get('total_cov_mat_log_determinant')"
+            for lp in [n for n in ast.walk(ini.node) if isinstance(n, ast.For) and _txt(n.iter) == "enumerate(self._fits)" and isinstance(n.target, ast.Tuple) and len(n.target.elts) == 2]:
+                iv, fv = _txt(lp.target.elts[0]), _txt(lp.target.elts[1])
+                END = ast.Expr(value=ast.Call(func=ast.Name(id="_END_", ctx=ast.Load()), args=[ast.Constant(value=0)], keywords=[]))
+                body = ast.Module(body=list(lp.body) + [END], type_ignores=[])
+                app = common.call_args_by_path(body, lambda c: _txt(c.func) == "%s.append" % names)
+                ends = common.call_args_by_path(body, lambda c: c is END.value)
+                if not app:
+                    continue
+
+                def has(conds):
+                    return ((fv + HAS + " is not None", True) in conds) or ((fv + HAS + " is None", False) in conds)
+
+                good = all(has(conds) and _txt(e) == "'total_cov_mat_log_determinant%%s' %% %s" % iv for conds, e in app)
+                # ... and every pass of the loop for a member that has the node appends it (no further condition on the way)
+                for conds, _e in ends:
+                    if has(conds):
+                        good = good and any(set(c2) <= set(conds) for c2, _ in app)
+                ok = ok or good
         R.ob("P-sum", "MultiFit._init_nexus:log determinant", ok, (ini.file, ini.lineno), "the combined log-determinant must be the sum over the members that have one")
 
     # ---------------------------------------------------------------- P-par
     with R.guard("Ppar"):
-        ok = "self._combined_parameter_node_dict[_par_node] = _fit_i._nexus.get(_par_node)" in src
+        ok = common.Src(str(src)).like("for _p in _f.parameter_names: self._combined_parameter_node_dict[_p] = _f._nexus.get(_p)")
         R.ob("P-par", "MultiFit._init_nexus:collect", ok, (ini.file, ini.lineno), "combined parameters must be collected by name from the members' graphs")
         ok = src.like("for _p in self._combined_parameter_node_dict.values(): self._nexus.add(_p) for _g in self._fits: if _p.name in _g.parameter_names: _g._nexus.add(_p, existing_behavior='replace')")
         R.ob("P-par", "MultiFit._init_nexus:replace", ok, (ini.file, ini.lineno),
@@ -140,7 +162,7 @@ def run(eng, R):
                 and "for _i in _fit_index_to_data_index:" in ssrc \
                 and all(any(("Alias(self._fits[_i]._nexus.get('%s'), %s)" % (nn, form)) in ssrc and ("_member_constraint_names.append(%s)" % form) in ssrc
                             for form in ("'%%s%%s' %% ('%s', _i)" % nn, "'%s%%s' %% _i" % nn)) for nn in ("parameter_values", "parameter_constraints")) \
-                and ssrc.find("_member_constraint_names.append('%s%s' % ('parameter_values', _i))") < ssrc.find("_member_constraint_names.append('%s%s' % ('parameter_constraints', _i))") \
+                and 0 <= ssrc.find("_member_constraint_names.append('parameter_values%s' % _i)") < ssrc.find("_member_constraint_names.append('parameter_constraints%s' % _i)") \
                 and "self._nexus.add_function(_member_constraint_cost, 'member_constraint_cost', _member_constraint_names)" in ssrc \
                 and ssrc.count("_cost_names.append('member_constraint_cost')") == 1
         R.ob("P-part", "_init_shared_error_nodes:member constraints", ok, (sh.file, sh.lineno),
